@@ -1,9 +1,47 @@
 """Helpers shared by implementation drivers (run inside the worker)."""
 
 
-def mk_tl(tb, segs, uri=None):
+def _prime_tl(t, probes):
+    """call every Timeline query once and discard the results (see annutil._prime_all)"""
+    len(t), bool(t), str(t), t.extent(), t.duration()
+    t.support(), t.gaps(), t.segmentation(), t.get_overlap(), t.copy()
+    list(t.co_iter(t))
+    for x in probes:
+        t.overlapping(x)
+        list(t.overlapping_iter(x))
+    for s in list(t)[:3]:
+        (s in t), t.crop(s), t.extrude(s), t.index(s), t.covers(t)
+
+
+def tl_mode(segs):
+    h = 0
+    for a, b in segs:
+        h = (h * 29 + 5 * a + 11 * b) % 1000003
+    return (h + len(segs)) % 3
+
+
+def mk_tl(tb, segs, uri=None, mode=None):
+    """a Timeline holding `segs`, reached by one of three histories chosen from the segments:
+    0 the constructor; 1 the constructor followed by every query once; 2 built with a placeholder instead of
+    the last segment, every query called once (at every bound as time point), then the placeholder is
+    removed and the last segment added - same number of segments before and after."""
     from pyannote.core import Timeline
-    return Timeline([tb.S(s) for s in segs], uri=uri)
+    mode = tl_mode(segs) if mode is None else mode
+    S = [tb.S(s) for s in segs]
+    if mode == 0 or not S:
+        return Timeline(S, uri=uri)
+    probes = sorted({x for s in S for x in (s.start, s.end)})
+    if mode == 1:
+        t = Timeline(S, uri=uri)
+        _prime_tl(t, probes)
+        return t
+    far = max(abs(x) for s in segs for x in s) + 1000
+    dummy = tb.S([far, far + 7])
+    t = Timeline(S[:-1] + [dummy], uri=uri)
+    _prime_tl(t, probes)
+    t.remove(dummy)
+    t.add(S[-1])
+    return t
 
 
 def segs_of(tb, it):
